@@ -27,8 +27,13 @@ def _impl_signal(c):
     try:
         with warnings.catch_warnings():
             warnings.simplefilter('ignore')
-            pk, tr = find_extrema(sig, c['fs'], tuple(c['f_range']), boundary=c['boundary'], first_extrema=c['first'],
-                                  filter_kwargs=(dict(c['fk']) if c['fk'] is not None else None), pad=c['pad'])
+            fk = dict(c['fk']) if c['fk'] is not None else None
+            snap = repr(fk)
+            pk, tr = find_extrema(sig, c['fs'], tuple(c['f_range']), boundary=c['boundary'], first_extrema=c['first'], filter_kwargs=fk, pad=c['pad'])
+            # the caller keeps using its settings dictionary: a second call must see the same settings
+            pk2, tr2 = find_extrema(sig, c['fs'], tuple(c['f_range']), boundary=c['boundary'], first_extrema=c['first'], filter_kwargs=fk, pad=c['pad'])
+            if repr(fk) != snap or not (np.array_equal(pk, pk2) and np.array_equal(tr, tr2)):
+                return ['err', 'SecondCallDiffers']
         return _fmt(pk, tr)
     except Exception as e:
         return ['err', type(e).__name__]
